@@ -5,6 +5,7 @@ import numpy as np
 
 from .. import world, core
 from ..core import Violation, run_tool
+from ..choice import RandomSource
 from ..world import PlotModel, fab_header, fmt_idx, fmt_row, g17
 from . import common, tools
 
@@ -269,8 +270,18 @@ def run_case(ctx):
     common.draw_env(ctx)
     t = Chk2pltT()
     t.draw(ctx, src)
-    if t.opts["in_form"].endswith("/"):
-        t.opts["in_form"] = t.opts["in_form"][:-1]
+    # (trailing-slash and default-output forms stay in: "never writes into the checkpoint" is part of
+    # this property's statement)
+    if src.flag("earlier_conversion", 3):
+        # an earlier conversion of ANOTHER checkpoint (other species count) in the same process
+        first = Chk2pltT()
+        first.draw(ctx, RandomSource(src.draw("earlier.seed", 0, 9999)))
+        first.opts.update(in_form="abs", cwd="work", out="abs", cli=False)
+        r0 = os.path.join(ctx.scratch, "earlier")
+        first.prepare_root(r0)
+        first.call(ctx, r0)
+        ctx.reset_pools()
+        ctx.probe("earlier_conversion_in_process")
     root = os.path.join(ctx.scratch, "run")
     inputs = t.prepare_root(root)
     snaps = [common.snapshot(i) for i in inputs]
@@ -286,6 +297,9 @@ def run_case(ctx):
             raise Violation({**sig, "oracle": "checkpoint-modified"},
                             f"conversion changed the input tree {ctx.rel(i)}: {d[:5]}")
     out = t.out_abs if t.out_abs is not None else os.path.join(root, "data", "plt00005")
+    if not os.path.isdir(out):
+        raise Violation({**sig, "oracle": "output-missing", "form_in": t.opts["in_form"], "form_out": t.opts["out"]},
+                        f"no plotfile at {ctx.rel(out)} after a conversion that returned normally; {t.describe()}")
     expect = t.expected()
     nf = len(expect.fields)
     rt = None
